@@ -269,11 +269,13 @@ CHECKS["C05"] = {
              "(quick: every Stride-th k, Stride 1..4, and 2..3 of the 5 kinds; thorough: every k and all kinds: read error, read error delivered with data, write error after j bytes, peer close, local close). "
              "Oracle per fault run (flush mode): no scripted call is still inside the library at quiescence; the call whose own transport write failed returns an error; sends/invokes/new-streams issued after the failure fail; "
              "Closed() is closed and ServeOne has returned; no library goroutine remains; each transport closed at most once; every message delivered before the failure is a correct prefix on the right stream. "
-             "Each fault run is one evaluation (sub-check fault_at_k); non-trivial = the fault actually fired. Distinct by (end, k, kind, trace, workload)."),
+             "Each fault run is one evaluation (sub-check fault_at_k); non-trivial = the fault actually fired. Distinct by (end, k, kind, trace, workload). " 
+             "write_only: after 0..2 undisturbed calls only the send direction of the client transport fails (plain error, an error wrapping io.EOF, io.ErrClosedPipe) while its reads stay pending; the unary Invoke or stream send that hits the failing write must return an error instead of waiting."),
     "assumptions": E3_ASSUME + ["fault model: once a transport end has failed, that call and every pending and later I/O call on that end fails (a dead socket); a write that fails once and then works again is not generated",
                                 "a receive issued after the failure may still return messages that reached that side before it; only absence of hangs and prefix correctness are demanded of receives"],
     "subs": [
         {"test": "TestC05Faults", "prop": "C05/workload", "quick": 640, "thorough": 6000, "shards_quick": 16, "shards_thorough": 16, "gomaxprocs": 1, "shrinktime": "60s"},
+        {"test": "TestC05WriteOnly", "prop": "C05/write_only", "quick": 4000, "thorough": 100000, "shards_quick": 8, "shards_thorough": 16, "gomaxprocs": 1},
     ],
     "floors": {"C05/fault_at_k": {"fault_fired": 0.46, "fault_mid_frame": 0.05, "fault_inside_a_callers_write": 0.1}},
 }
@@ -306,12 +308,14 @@ CHECKS["C03"] = {
              "which blocked calls are released and with what, and Terminated/Finished/Context().Done()/Err() after the step. "
              "parked: the k-th transport write is held while further calls are issued (frame writer with a buffer of 1, 64 or 4096 bytes, so frames are either written through or stay corked until a flush such as the one the first receive performs; the held write either succeeds or fails when released, as under a closed transport; stream options ManualFlush and MaximumBufferSize 1/16 are drawn too; alternatively the first call to reach one of nine scheduling points inside the stream - in front of a lock, or between writing a message into the frame writer and flushing it - is held there instead of a transport write); invariants at every quiescent point (finished => terminated; a write inside the transport => not finished; terminated with nothing in flight => finished), "
              "after the release nothing stays blocked except receives/deliveries on an unterminated stream, and nothing is emitted after termination except the terminating local call's own packet. "
-             "Non-trivial: >= 2 state transitions (sequential); a parked write overlapped >= 2 pending calls (parked)."),
+             "Non-trivial: >= 2 state transitions (sequential); a parked write overlapped >= 2 pending calls (parked). " 
+             "recv_after_end (metamorphic): a stream with ManualFlush or a corked first write, 0..2 flushed messages, then the peer ends it (half-close, close, error, cancel; optionally a message of the peer still waiting) and 1..3 receives follow; the same history is run without and with 1..2 messages written but not flushed, and every receive must report the same outcome (error text and code) both times."),
     "assumptions": ["the reference model (harness/stream/model.go) is a faithful reading of state.dot and the method godoc; where no specific error is documented (receive after a remote Close or a local Close/SendError) any non-nil error is accepted",
                     "the sequential check uses a 1-byte writer buffer so that nothing is left unflushed between steps; lock-level behaviour during a parked write is C04's subject"],
     "subs": [
         {"test": "TestC03Sequential", "prop": "C03/sequential", "quick": 120000, "thorough": 4000000, "shards_quick": 16, "shards_thorough": 16, "gomaxprocs": 1},
         {"test": "TestC03Parked", "prop": "C03/parked", "quick": 60000, "thorough": 2000000, "shards_quick": 16, "shards_thorough": 16, "gomaxprocs": 1},
+        {"test": "TestC03RecvAfterEnd", "prop": "C03/recv_after_end", "quick": 20000, "thorough": 1000000, "shards_quick": 4, "shards_thorough": 8},
     ],
     "floors": {"C03/sequential": {"@nontrivial": 0.107, "terminated": 0.355}, "C03/parked": {"parked_write_overlapped_other_calls": 0.081, "terminated_while_write_parked": 0.05}},
 }
